@@ -395,3 +395,107 @@ def compare(form, kind):
         if not isinstance(g, int) or (g - w) % m != 0:
             bad.append((b, g, w))
     return bad, m
+
+
+# --------------------------------------------------------------------------- read coverage (abstract execution)
+class _Unk:
+    """A value the abstract execution knows nothing about: arithmetic gives another unknown, a truth test is undecidable (the
+    interpreter then follows both outcomes)."""
+    def _u(self, *a):
+        return _Unk()
+    __add__ = __radd__ = __sub__ = __rsub__ = __mul__ = __rmul__ = __floordiv__ = __rfloordiv__ = __mod__ = __rmod__ = _u
+    __and__ = __rand__ = __or__ = __ror__ = __xor__ = __rxor__ = __neg__ = __pos__ = __invert__ = __truediv__ = __rtruediv__ = _u
+    __pow__ = __rpow__ = __lshift__ = __rshift__ = _u
+    __lt__ = __le__ = __gt__ = __ge__ = _u
+
+    def __eq__(self, o):
+        return _Unk()
+
+    def __ne__(self, o):
+        return _Unk()
+    __hash__ = None
+
+    def __bool__(self):
+        raise Undecidable('truth value of an array element')
+
+
+class _AArr:
+    """A one-dimensional operand (or a view of it): the absolute indices it stands for; element reads are recorded."""
+    def __init__(self, base, idxs, reads):
+        self.base, self.idxs, self.reads = base, idxs, reads
+
+    def __len__(self):
+        return len(self.idxs)
+
+    def get(self, k):
+        if isinstance(k, slice):
+            return _AArr(self.base, self.idxs[k], self.reads)
+        if isinstance(k, int) and not isinstance(k, bool):
+            try:
+                self.reads.add((self.base, self.idxs[k]))
+            except IndexError:
+                raise Undecidable('index %d outside a view of %d entries' % (k, len(self.idxs)))
+            return _Unk()
+        raise Undecidable('index kind')
+
+    def all_read(self):
+        for i in self.idxs:
+            self.reads.add((self.base, i))
+        return _Unk()
+
+
+def read_coverage(fn, operands, sizes=range(1, 13)):
+    """Abstract execution of a reduction kernel over strings of N = 1..12 qubits: the entries are unknown, every outcome of a
+    test on them is followed, and the entries read on any path are collected.  A kernel whose result depends on every entry of
+    its operands must read every entry on some path: returns None if so, else (N, operand, unread entries)."""
+    from .. import mini
+    for N in sizes:
+        reads = set()
+
+        def sub(n, env, rec):
+            b = rec(n.value)
+            if isinstance(b, _AArr):
+                return b.get(rec(n.slice))
+            if isinstance(b, tuple):
+                return b[rec(n.slice)]
+            raise Undecidable('subscript ' + norm(n))
+
+        def attr(n, env, rec):
+            if n.attr == 'shape':
+                b = rec(n.value)
+                if isinstance(b, _AArr):
+                    return (len(b),)
+            if n.attr == 'size':
+                b = rec(n.value)
+                if isinstance(b, _AArr):
+                    return len(b)
+            raise Undecidable('attribute ' + norm(n))
+
+        def call(n, env, rec):
+            f_ = n.func
+            if isinstance(f_, ast.Attribute) and f_.attr in ('any', 'all', 'sum', 'max', 'min') and not n.args:
+                b = rec(f_.value)
+                if isinstance(b, _AArr):
+                    return b.all_read()
+                if isinstance(b, _Unk):
+                    return _Unk()
+            if isinstance(f_, ast.Attribute) and isinstance(f_.value, ast.Name) and f_.value.id in ('numpy', 'np') and f_.attr in ('any', 'all', 'sum', 'count_nonzero') \
+                    and len(n.args) == 1:
+                b = rec(n.args[0])
+                if isinstance(b, _AArr):
+                    return b.all_read()
+            if isinstance(f_, ast.Name) and f_.id == 'len' and len(n.args) == 1:
+                return len(rec(n.args[0]))
+            raise Undecidable('call ' + norm(n.func))
+
+        def once(choices):
+            env = {p: _AArr(p, list(range(2 * N)), reads) for p in operands}
+            mini.execute(fn.node, env, sub=sub, call=call, attr=attr, choices=choices, result=[])
+            return True
+        for _ in mini.all_paths(once, limit=128):
+            pass
+        for p in operands:
+            missing = sorted(i for i in range(2 * N) if (p, i) not in reads)
+            if missing:
+                return (N, p, missing)
+    return None
